@@ -12,6 +12,7 @@ import (
 	"sort"
 	"strings"
 	"sync"
+	"syscall"
 	"time"
 
 	"github.com/jmeaster30/vore/libvore"
@@ -39,6 +40,8 @@ func execCase(c *wire.Case) (res *wire.Result) {
 	case "compile":
 		_, cr := doCompile(c.Src, c)
 		res.Compile = cr
+	case "compilefile":
+		opCompileFile(c, res)
 	case "run", "json":
 		opRun(c, res)
 	case "astcmp":
@@ -91,7 +94,9 @@ func doCompile(src []byte, c *wire.Case) (v *libvore.Vore, cr *wire.Compile) {
 				err = nil
 			}
 		}()
-		if compileViaFile {
+		if compileViaPath != "" {
+			v, err = libvore.CompileFile(compileViaPath)
+		} else if compileViaFile {
 			f, ferr := os.CreateTemp("", "vw-src-*.vore")
 			if ferr != nil {
 				panic("harness: " + ferr.Error())
@@ -298,6 +303,53 @@ func opRun(c *wire.Case, res *wire.Result) {
 
 // compileViaFile: the next doCompile goes through CompileFile
 var compileViaFile bool
+
+// compileViaPath: the next doCompile is CompileFile of this path
+var compileViaPath string
+
+// opCompileFile: the source delivered through the file system in the way c.Mode names - a regular file, a symbolic
+// link to it, a named pipe, /dev/null (then the source is empty), a directory, a missing path. Compiles[0] is the
+// outcome of CompileFile, Compiles[1] that of Compile on the same bytes.
+func opCompileFile(c *wire.Case, res *wire.Result) {
+	dir, err := os.MkdirTemp("", "vw-cf-*")
+	if err != nil {
+		res.Panic = &wire.PanicInfo{Msg: "harness: " + err.Error()}
+		return
+	}
+	defer os.RemoveAll(dir)
+	src := c.Src
+	path := filepath.Join(dir, "prog.vore")
+	switch c.Mode {
+	case "file":
+		os.WriteFile(path, src, 0o644)
+	case "symlink":
+		os.WriteFile(filepath.Join(dir, "real.vore"), src, 0o644)
+		os.Symlink("real.vore", path)
+	case "fifo":
+		if err := syscall.Mkfifo(path, 0o644); err != nil {
+			res.Panic = &wire.PanicInfo{Msg: "harness: mkfifo: " + err.Error()}
+			return
+		}
+		go func() {
+			if f, err := os.OpenFile(path, os.O_WRONLY, 0); err == nil {
+				f.Write(src)
+				f.Close()
+			}
+		}()
+	case "devnull":
+		path, src = "/dev/null", nil
+	case "dir":
+		path = dir
+	case "missing":
+		path = filepath.Join(dir, "no-such-file.vore")
+	}
+	compileViaPath = path
+	_, cr := doCompile(src, c)
+	compileViaPath = ""
+	res.Compiles = append(res.Compiles, *cr)
+	_, cr2 := doCompile(src, c)
+	res.Compiles = append(res.Compiles, *cr2)
+}
 
 func opASTCmp(c *wire.Case, res *wire.Result) {
 	var base string
